@@ -33,6 +33,11 @@ Theorem C16_table_covers_impls :
   forallb covered impls = true.
 Proof. split; vm_compute; reflexivity. Qed.
 
+(* types with an unconditional unsafe Send impl are only handed out by trait impls that demand
+   a thread-safe lock type: every `impl Timer for ...` requires `MutexType: Sync` *)
+Theorem C16_producers_guarded : producers_guarded trait_impls = true.
+Proof. vm_compute. reflexivity. Qed.
+
 (* completeness: what the crate promises for thread-safe locks and Send payloads holds *)
 Theorem C16_complete :
   forall r, In r promised ->
@@ -46,3 +51,4 @@ Print Assumptions C16_futures_not_unpin.
 Print Assumptions C16_sound.
 Print Assumptions C16_table_covers_impls.
 Print Assumptions C16_complete.
+Print Assumptions C16_producers_guarded.
